@@ -103,9 +103,13 @@ def gen_hist_spec(rng):
                 sp["nodes"][i]["active"] = ["n", rng.choice(earlier), []]
     if rng.random() < 0.5:
         # tags as aliases: shared between functions, and substrings of each other ("m_1" in "m_10", "xm_1")
+        idp = S.node_ids(sp)
         for fn in sorted(sp["fns"]):
             if rng.random() < 0.5:
-                sp["fns"][fn]["tag"] = rng.choice(["m_1", "m_10", "m_1", "xm_1", "m_"])
+                # ... or spelled exactly like the id of a node of ANOTHER function (a tag wins: the string then denotes the tagged
+                # nodes only, never "both")
+                foreign = [x for q, x in enumerate(idp) if sp["nodes"][q]["fn"] != fn]
+                sp["fns"][fn]["tag"] = rng.choice(["m_1", "m_10", "m_1", "xm_1", "m_"] + ([rng.choice(foreign)] * 2 if foreign else []))
     return sp, setup
 
 
@@ -113,7 +117,7 @@ def tags_by_site(sp):
     return {i: sp["fns"][nd["fn"]]["tag"] for i, nd in enumerate(sp["nodes"]) if sp["fns"][nd["fn"]].get("tag") is not None}
 
 
-def aliasize(rng, sp, ids, ts):
+def aliasize(rng, sp, ids, ts, d=None):
     """Spell a selection with tags where possible; returns (aliases, the call sites they denote)."""
     tg = tags_by_site(sp)
     out, den = [], set()
@@ -121,6 +125,12 @@ def aliasize(rng, sp, ids, ts):
         if i in tg and rng.random() < 0.5:
             out.append(tg[i])
             den |= {j for j, t in tg.items() if t == tg[i]}
+        elif ids[i] in tg.values():
+            # this node's id is also somebody's tag: as a string it would denote the tagged nodes - name the node by reference
+            if d is None:
+                continue
+            out.append(d.get_node_by_id(ids[i]))
+            den.add(i)
         else:
             out.append(ids[i])
             den.add(i)
@@ -215,7 +225,7 @@ def c11_history(col, rng, hidx, jobref=None):
             continue
         if op == "exec_create":
             ts = rng.sample(range(n), rng.randint(1, min(3, n)))
-            al, ts = aliasize(rng, sp, ids, ts)
+            al, ts = aliasize(rng, sp, ids, ts, d)
             kwp = {"target_nodes": al}
             pending.setdefault(k, []).append((d.executor(**kwp), S.closure(sp, None, None, ts), kwp))
             hist.append(("executor_created_run_later", k, S.jsonable(kwp)))
@@ -237,7 +247,7 @@ def c11_history(col, rng, hidx, jobref=None):
             thunk = lambda: op_call(d, args)  # noqa: E731
         elif op == "exec":
             ts = rng.sample(range(n), rng.randint(0 if rng.random() < 0.1 else 1, min(3, n)))
-            al, ts = aliasize(rng, sp, ids, ts)
+            al, ts = aliasize(rng, sp, ids, ts, d)
             kw = {"target_nodes": al}
             sel = S.closure(sp, None, None, ts)
             thunk = lambda: op_exec(d, kw, args)  # noqa: E731
@@ -256,7 +266,7 @@ def c11_history(col, rng, hidx, jobref=None):
         elif op == "exec_setup":
             # executor(target_nodes=T).setup() == setup(target_nodes=T), in both flavours
             ts = rng.sample(range(n), rng.randint(1, min(3, n)))
-            al, ts = aliasize(rng, sp, ids, ts)
+            al, ts = aliasize(rng, sp, ids, ts, d)
             kw = {"target_nodes": al}
             sel = S.closure(sp, None, None, ts) & set(setup)
             exo = d.executor(**kw)
@@ -271,7 +281,7 @@ def c11_history(col, rng, hidx, jobref=None):
         else:
             # an empty target list is a legal empty selection (nothing to set up), different from "not given"
             ts = rng.sample(range(n), rng.randint(0, 2))
-            al, ts = aliasize(rng, sp, ids, ts)
+            al, ts = aliasize(rng, sp, ids, ts, d)
             kw = {"target_nodes": al}
             sel = S.closure(sp, None, None, ts) & set(setup)
             thunk = lambda: op_setup(d, kw)  # noqa: E731
